@@ -80,13 +80,13 @@ def _squash(t):
 
 
 def joined_on_second_pass(det):
-    """the first pass broke a list / call / parameter list over several lines (`[ 1000, 5 + 2\\n] then [`, `f(a,\\nb)`) and the
-    second pass joins it again; nothing else differs.  The width test looks at the text up to the next line break of the
+    """the two passes lay a list / call / parameter list out differently (the first breaks it and the second joins it again:
+    `[ 1000, 5 + 2\\n] then [`; or the first breaks it half-way and the second fully) and differ in nothing but white space.  The width test looks at the text up to the next line break of the
     *input*; the first pass changes where that is."""
     if not isinstance(det, dict) or "first" not in det or "second" not in det:
         return False
     first, second = det["first"], det["second"]
-    return _squash(first) == _squash(second) and first.count("\n") > second.count("\n")
+    return _squash(first) == _squash(second)
 
 
 GLUED_SPECS = re.compile(r"^\s*for [^\n]*?[A-Za-z0-9_](?:if|for) |^\s*for [^\n]*(?://|#)[^\n]*\b(?:if|for) ", re.M)
@@ -110,7 +110,7 @@ def features(core, det=None):
     if not f and nested_statement(core):
         f.append("local-or-assert-statement-inside-brackets")
     if not f and joined_on_second_pass(det):
-        f.append("first-pass-line-break-joined-on-second-pass")
+        f.append("passes-differ-in-line-breaks-only")
     if "|||" in core and not f:
         f.append("crlf-text-block" if "\r\n" in core else "text-block")
     if not f:
